@@ -177,6 +177,9 @@ def dim(u):
     return unit_dim(u)
 
 
+grid_k = z3.Function("grid_k", z3.RealSort(), z3.RealSort(), z3.IntSort())
+
+
 def unit_quantum(h, u):
     """(has_quantum, quantum) of a unit: the currency's smallest fraction, or
     the type's quantum divided by the unit's scale."""
@@ -195,11 +198,36 @@ def q_round(h, x, u):
 
 
 def q_round_facts(h, x, u):
+    """defining fact of rnd for the argument, and the definitional fact of the
+    ghost witness grid_k (grid_k(a, q) is the integer k with k * q == a when
+    there is one) for the rounded value"""
     _has, qu = unit_quantum(h, u)
-    return S.rnd_fact(x / qu, S.DFLT_MODE)
+    k = S.rnd(x / qu, S.DFLT_MODE)
+    return z3.And(S.rnd_fact(x / qu, S.DFLT_MODE),
+                  z3.Implies(qu != 0, grid_k(z3.ToReal(k) * qu, qu) == k))
 
 
-grid_k = z3.Function("grid_k", z3.RealSort(), z3.RealSort(), z3.IntSort())
+def grid_w(a, qu):
+    """a is the multiple grid_k(a, qu) of qu (ghost witness)"""
+    return z3.ToReal(grid_k(a, qu)) * qu == a
+
+
+def grid_sum_facts(a1, a2, sign, qu):
+    """ground instances for the sum / difference of two multiples of qu:
+    the definitional fact of the witness grid_k at (g1 +- g2) * qu, the
+    distributivity instance, and the cancellation instance of lemma
+    field/cancel-common-factor (A3)"""
+    g1, g2 = grid_k(a1, qu), grid_k(a2, qu)
+    G = g1 + sign * g2
+    gr = z3.ToReal(G)
+    exact = a1 + sign * a2
+    return z3.Implies(qu != 0, z3.And(
+        S.rnd_int_fact(G, S.DFLT_MODE),
+        grid_k(gr * qu, qu) == G,
+        gr * qu == z3.ToReal(g1) * qu + sign * (z3.ToReal(g2) * qu),
+        z3.Implies(z3.And(grid_w(a1, qu), grid_w(a2, qu)),
+                   z3.And(exact / qu == gr, exact == gr * qu,
+                          grid_k(exact, qu) == G))))
 
 
 def on_grid(h, a, u):
